@@ -231,6 +231,11 @@ theorem vsharp_kpath_eq :
                                        "mask:output_kspace:data['target_sampling_mask']"] ∧
     vsharp_jssl_engine_kpath.take 2 = vsharp_ssl_engine_kpath.take 2 := by decide
 
+/-- every test of an enum-valued option (half-split direction, splitter type in the builder) against a `DirectEnum`
+member goes through `__eq__` (`==`, `!=`, membership in a list / tuple, `match`) — never identity, never a hash
+lookup — so the option may be handed over as the member or as a string of any case (`resolveDir .eq`) -/
+theorem enum_compares_ok : enumComparesOk enum_compares = true := by decide
+
 /-- `0 < r < 1` for every ratio, as `ratioValid` -/
 theorem ratio_guard_eq (p q : Int) : ratio_guard p q = ratioValid p q := by
   rw [Bool.eq_iff_iff]
